@@ -688,7 +688,6 @@ func TestC07Contract(t *testing.T) {
 
 var _ = crypto.Keccak256
 
-
 // TestC07LookupRace - a balance look-up of the wallet (pool_account, a client's keep-alive reading its wallet) whose
 // answer from the chain travels slowly while the wallet withdraws: whatever the pool does with the late answer, the
 // deposit is paid once.
